@@ -832,6 +832,19 @@ def a7(prog, ctx):
                 ctx.fail("A7", "econf_getKeys lists every entry of the section", extra[0].node.where,
                          "whether an entry of the section is listed also depends on `%s`: not a comparison of names - two different keys for which it answers "
                          "alike (equal hash values) are listed as one, the second key is missing from every listing" % extra[0].atom[:70], key="keys-extra-filter")
+    # the copying pass takes entry i when entry i was marked: mark test and copy use the index of their loop
+    for lp_ in kl:
+        sh = loops.for_shape(lp_)
+        if not sh.ok:
+            continue
+        for x in lp_.walk():
+            if x.k == "ArraySubscriptExpr" and (render(x.children[0]).endswith("file_entry") or render(x.children[0]) == "uniques") and \
+                    next((a9 for a9 in x.ancestors() if a9.k in ("ForStmt", "WhileStmt")), None) is lp_:
+                ix = render(x.children[1])
+                if ix != sh.var and not ix.startswith(sh.var):
+                    ctx.fail("A7", "econf_getKeys reads the entry of its round", x.where,
+                             "`%s` inside the loop over `%s`: the mark of one entry decides about / the key of one entry is copied for another" % (render(x)[:50], sh.var),
+                             key="keys-index")
     cp = [st for lhs, rhs, st, kind in query.stores(k) if render(lhs).startswith("(*keys)[")]
     if cp and re.match(r"strdup\(kf->file_entry\[[\w$.]+\]\.key\)", render(cp[0].children[1])) and "++" in render(cp[0].children[0]):
         ctx.ok("A7", "econf_getKeys returns the keys in entry order", cp[0].where, render(cp[0]))
@@ -993,6 +1006,8 @@ def a13_creators_agree(prog, ctx):
 
 
 def run(prog, ctx):
+    # A14: the per-entry accessors (get*/set*ValueNum, setKey, setGroup, initialize ...) work on the entry whose index they are given
+    common.index_param_rule(prog, ctx, "A14")
     a11_names_kept(prog, ctx)
     a12_group_list_intact(prog, ctx)
     a13_creators_agree(prog, ctx)
